@@ -33,12 +33,16 @@ def env_base():
     return e
 
 
+# harness modules that live behind another module's cargo feature
+MODULE_FEATURE = {"rxl": "rx", "c03b": "c03"}
+
+
 def feature_list(prop, harnesses, extra=(), tier="quick"):
     feats = {prop.lower(), "twins"}
     if tier == "thorough":
         feats.add("deep")
     for h in harnesses:
-        feats.add(h["module"])
+        feats.add(MODULE_FEATURE.get(h["module"], h["module"]))
     feats.update(extra)
     return ",".join(sorted(feats))
 
